@@ -13,6 +13,7 @@ import (
 	"math/big"
 	"os"
 	"strings"
+	"time"
 
 	"golang.org/x/tools/go/ssa"
 )
@@ -68,33 +69,35 @@ type Exec struct {
 	params  map[string]int
 
 	// per path
-	globals    map[*ssa.Global]*Obj
-	nextObj    int
-	trace      []traceEnt
-	cursor     int
-	steps      int
-	writes     int
-	decs       int
-	frame      *Frame
-	inputs     []*Term // symbolic inputs created on this path, in order
-	inputSeen  map[string]bool
-	epoch      int
-	locs       map[string]*Obj
-	opaque     map[string]*Obj
-	initDone   bool
-	mapOrder   string
-	mapPerms   map[string][]int
-	observes   []obsRec
-	footprints map[string]*footprint
-	curFoot    *footprint
-	pathAux    map[string]interface{}
-	assertedVars map[string]bool
-	known      map[int]bool
-	mergeDepth int
-	mergeBase  int
-	mergeDirty bool
-	noMerge    bool
-	varCache   map[int][]string
+	globals         map[*ssa.Global]*Obj
+	nextObj         int
+	trace           []traceEnt
+	cursor          int
+	steps           int
+	writes          int
+	decs            int
+	frame           *Frame
+	inputs          []*Term // symbolic inputs created on this path, in order
+	inputSeen       map[string]bool
+	epoch           int
+	locs            map[string]*Obj
+	opaque          map[string]*Obj
+	initDone        bool
+	mapOrder        string
+	mapPerms        map[string][]int
+	observes        []obsRec
+	footprints      map[string]*footprint
+	curFoot         *footprint
+	pathAux         map[string]interface{}
+	assertedVars    map[string]bool
+	known           map[int]bool
+	mergeDepth      int
+	streamQueries   int
+	streamFallbacks int
+	mergeBase       int
+	mergeDirty      bool
+	noMerge         bool
+	varCache        map[int][]string
 
 	// accumulated over paths
 	Paths        int
@@ -114,6 +117,7 @@ type Exec struct {
 	Bound        int
 	MaxPaths     int
 	Truncated    bool
+	Deadline     time.Time
 	Merged       map[string]int
 	Unmerged     map[string]int
 }
@@ -173,6 +177,13 @@ func (e *Exec) Explore(fn *ssa.Function) {
 			return
 		}
 		if e.Paths >= e.MaxPaths {
+			e.Truncated = true
+			return
+		}
+		if e.cfg["stop_on_fail"] == "1" && len(e.Failures) > 0 {
+			return
+		}
+		if e.Deadline != (time.Time{}) && time.Now().After(e.Deadline) {
 			e.Truncated = true
 			return
 		}
